@@ -23,7 +23,8 @@ RULE = ('A server-side process handler writes drawn stdout/stderr streams '
         'status or signal; the client side writes a drawn stdin stream. '
         'reader mode: each stream is consumed by a drawn program of read(n), '
         'read(), readexactly(n), readline(), readuntil(single / several / '
-        'regex separators), with window and max packet size from 1 byte up '
+        'regex separators), ending with read-to-EOF or `async for` over the '
+        'remaining lines, with window and max packet size from 1 byte up '
         'so that separators and characters straddle packets; a sequential '
         'reference reader over the total stream, independent of chunking, '
         'gives the expected result of every call. run mode: conn.run()/ '
@@ -42,7 +43,10 @@ ASSUMPTIONS = [
     'generated (which match is "first" is then undocumented)',
     'when a readuntil() gives up because the receive buffer reached its '
     'limit, IncompleteReadError with the buffered data is accepted provided '
-    'no unit is lost or repeated (the error type is not documented)',
+    'no unit is lost or repeated (the error type is not documented) and the '
+    'partial is not empty (an empty result is the end-of-file indication)',
+    'redirection to OS pipes, sockets given as file descriptors and TTYs '
+    'needs a real selector loop and is not simulated',
 ]
 
 REAL = ['asyncssh stream.py (SSHReader/SSHWriter/SSHStreamSession), '
@@ -52,7 +56,8 @@ STUB = ['event loop + clock', 'TCP', 'executor', 'OS randomness']
 PROBES = ['async_iteration', 'mode_reader', 'mode_run', 'mode_redirect', 'text_mode',
           'tiny_packets', 'readuntil_multi', 'readuntil_regex',
           'incomplete_read_at_eof', 'limit_overrun', 'exit_signal',
-          'exit_status', 'redirect_process', 'redirect_file']
+          'exit_status', 'redirect_process', 'redirect_file',
+          'redirect_stream', 'redirect_async_file']
 
 ALPHA_B = [b'a', b'b', b'c', b'\n', b'\n', b';', b',', b'\r', b'x', b'::']
 ALPHA_T = ['a', 'b', '\n', '\n', ';', ',', '\r', 'é', '€', '😀', '::', 'ß']
@@ -82,6 +87,11 @@ def render(idx, text):
         return ''.join(ALPHA_T[i] for i in idx)
 
     return b''.join(ALPHA_B[i] for i in idx)
+
+
+TARGETS = ['file', 'devnull', 'process', 'stdin_file', 'stream_out',
+           'stream_in', 'process_in', 'afile_out', 'afile_in',
+           'stderr_stdout', 'fileobj_out']
 
 
 def gen_chunks(rng, total):
@@ -146,8 +156,7 @@ def gen_plan(rng):
     plan['in_chunks'] = gen_chunks(rng, n_in)
 
     if mode == 'redirect':
-        plan['target'] = rng.choice(['file', 'devnull', 'process',
-                                     'stdin_file'])
+        plan['target'] = rng.choice(TARGETS)
 
     return plan
 
@@ -189,8 +198,7 @@ def valid_plan(plan):
                 if op[0] == 'until' and (len(op) != 2 or op[1] not in SEPS):
                     return False
 
-        if plan['mode'] == 'redirect' and plan.get('target') not in \
-                ('file', 'devnull', 'process', 'stdin_file'):
+        if plan['mode'] == 'redirect' and plan.get('target') not in TARGETS:
             return False
 
         return plan['exit'][0] in ('status', 'signal', 'none')
@@ -513,6 +521,12 @@ def run_plan(plan, sched_seed=None, sched_replay=None):
 
         cmd = process.command or ''
 
+        if cmd == 'source':
+            # first process of a stdin redirect: emits the input stream
+            await feed(process.stdout, in_pieces, 'src')
+            process.exit(0)
+            return
+
         if cmd == 'sink':
             # second process of a redirect: collect stdin
             data = await process.stdin.read()
@@ -625,6 +639,115 @@ def run_plan(plan, sched_seed=None, sched_replay=None):
                     proc = await conn.create_process('cmd', stdin=path, **kw)
                     res['run'] = await proc.wait()
                     sim.probes['redirect_file'] += 1
+                elif target == 'fileobj_out':
+                    with open(path, 'wb') as fobj:
+                        proc = await conn.create_process('cmd', stdout=fobj,
+                                                         **kw)
+                        await write_stdin(proc)
+                        await proc.wait()
+
+                    sim.probes['redirect_file'] += 1
+                elif target == 'stderr_stdout':
+                    proc = await conn.create_process(
+                        'cmd', stderr=asyncssh.STDOUT, **kw)
+                    w = sim.track('cli-stdin', write_stdin(proc))
+                    res['merged'] = await proc.stdout.read()
+                    await w
+                    await proc.wait()
+                elif target in ('stream_out', 'stream_in'):
+                    got = {'data': b'', 'eof': False}
+
+                    async def peer_side(reader, writer):
+                        if target == 'stream_out':
+                            got['data'] = await reader.read()
+                            got['eof'] = True
+                            writer.close()
+                        else:
+                            for piece in in_pieces:
+                                writer.write(piece.encode('utf-8') if text
+                                             else piece)
+
+                                if sim.tape.draw(2, 40):
+                                    await sim.pause('feeder')
+
+                            writer.write_eof()
+                            await reader.read()
+                            writer.close()
+
+                    srv = await asyncio.start_server(peer_side, '10.0.0.7',
+                                                     9000)
+                    rd, wr = await asyncio.open_connection('10.0.0.7', 9000)
+
+                    if target == 'stream_out':
+                        proc = await conn.create_process('cmd', stdout=wr,
+                                                         **kw)
+                        await write_stdin(proc)
+                    else:
+                        proc = await conn.create_process('cmd', stdin=rd,
+                                                         **kw)
+
+                    res['run'] = await proc.wait()
+                    res['stream'] = got
+                    sim.probes['redirect_stream'] += 1
+
+                    # the far end must see EOF by itself: wait until the
+                    # world is quiet before this side closes anything
+                    await world.gate('settled')
+                    wr.close()
+                    srv.close()
+                    await srv.wait_closed()
+                elif target in ('afile_out', 'afile_in'):
+                    class AFile:
+                        """File-like object with coroutine methods"""
+
+                        def __init__(self, pieces):
+                            self.pieces = list(pieces)
+                            self.written = []
+                            self.closed = False
+
+                        async def read(self, n):
+                            await sim.pause('afile')
+
+                            if not self.pieces:
+                                return b''
+
+                            piece = self.pieces.pop(0)
+
+                            if len(piece) > n:
+                                self.pieces.insert(0, piece[n:])
+                                piece = piece[:n]
+
+                            return piece
+
+                        async def write(self, data):
+                            await sim.pause('afile')
+                            self.written.append(bytes(data))
+                            return len(data)
+
+                        async def close(self):
+                            self.closed = True
+
+                    # (pieces re-inserted after a split are bytes already)
+                    af = AFile([p.encode('utf-8') if text else p
+                                for p in in_pieces])
+                    if target == 'afile_out':
+                        proc = await conn.create_process('cmd', stdout=af,
+                                                         **kw)
+                        await write_stdin(proc)
+                    else:
+                        proc = await conn.create_process('cmd', stdin=af,
+                                                         **kw)
+
+                    res['run'] = await proc.wait()
+                    res['afile'] = af
+                    sim.probes['redirect_async_file'] += 1
+                elif target == 'process_in':
+                    src = await conn.create_process('source', **kw)
+                    proc = await conn.create_process('cmd', stdin=src.stdout,
+                                                     **kw)
+                    res['run'] = await proc.wait()
+                    await src.wait()
+                    sim.probes['redirect_process'] += 1
                 else:
                     sink = await conn.create_process('sink', **kw)
                     proc = await conn.create_process('cmd',
@@ -647,6 +770,11 @@ def run_plan(plan, sched_seed=None, sched_replay=None):
     try:
         world.start(main())
         world.run_phase()
+
+        if res.get('stream') is not None:
+            res['stream'] = dict(res['stream'])
+            world.open_gate('settled')
+            world.run_phase()
 
         if res['exc'] is not None:
             world.violation('api-failed', '%s mode failed: %r' %
@@ -704,7 +832,76 @@ def run_plan(plan, sched_seed=None, sched_replay=None):
             elif mode == 'redirect':
                 target = plan['target']
 
-                if target == 'file':
+                if target in ('stream_in', 'afile_in', 'process_in'):
+                    if res['srv_in'] != s_in:
+                        world.violation(
+                            'redirect-mismatch', 'stdin redirected from %s: '
+                            'command read %r units, source had %d' %
+                            (target, None if res['srv_in'] is None
+                             else len(res['srv_in']), len(s_in)),
+                            sig=target)
+                elif target == 'stream_out':
+                    want = s_out.encode('utf-8') if text else s_out
+                    st = res.get('stream') or {}
+
+                    if st.get('data') != want or not st.get('eof'):
+                        world.violation(
+                            'redirect-mismatch', 'stdout redirected to a '
+                            'stream writer: peer read %d bytes (EOF seen: '
+                            '%s), %d sent' % (len(st.get('data', b'')),
+                                              st.get('eof'), len(want)),
+                            sig=target)
+                elif target == 'afile_out':
+                    want = s_out.encode('utf-8') if text else s_out
+                    af = res.get('afile')
+                    got = b''.join(af.written) if af else None
+
+                    if got != want or not af.closed:
+                        world.violation(
+                            'redirect-mismatch', 'stdout redirected to an '
+                            'async file object: %r bytes written (closed: '
+                            '%s), %d sent' % (None if got is None
+                                              else len(got),
+                                              af and af.closed, len(want)),
+                            sig=target)
+                elif target == 'stderr_stdout':
+                    merged = res.get('merged')
+                    ok = merged is not None and \
+                        len(merged) == len(s_out) + len(s_err)
+
+                    if ok:
+                        # is `merged` an interleaving of the two streams?
+                        n, m = len(s_out), len(s_err)
+                        reach = {0}            # reachable i for current k
+
+                        for k in range(n + m):
+                            u = merged[k:k + 1]
+                            nxt = set()
+
+                            for i in reach:
+                                j = k - i
+
+                                if i < n and s_out[i:i + 1] == u:
+                                    nxt.add(i + 1)
+
+                                if j < m and s_err[j:j + 1] == u:
+                                    nxt.add(i)
+
+                            reach = nxt
+
+                            if not reach:
+                                break
+
+                        ok = n in reach or (not n and not m)
+
+                    if not ok:
+                        world.violation(
+                            'redirect-mismatch', 'stderr redirected to '
+                            'stdout: merged stream has %r units, %d + %d '
+                            'sent, or is not a merge of the two' %
+                            (None if merged is None else len(merged),
+                             len(s_out), len(s_err)), sig=target)
+                elif target in ('file', 'fileobj_out'):
                     with open(os.path.join(d, 'target.bin'), 'rb') as f:
                         got = f.read()
 
